@@ -22,21 +22,30 @@ LEVEL_TEXT = ("Exploration of a liveness property restated as bounded progress: 
 LEVEL_NOTE = ("Trusts the world model, MPF's TimeTravelLoop, and that H exceeds every configured timeout chain "
               "(eject timeout <= 10 s, missing timeout <= 30 s, incoming timeout 60 s, max 3 attempts).")
 ASSUMPTIONS = [
-    "liveness restated as bounded progress: verdict at H=300 virtual s after the last physical change",
-    "the world's player always plunges a ball resting in a mechanical plunger within a bounded delay",
+    "liveness restated as bounded progress: verdict at H=300 virtual s after the last physical change / coil command",
+    "the world's player always plunges a ball resting in a mechanical plunger within a bounded delay (<= 40 s)",
     "a device waiting for a ball while no device on any path to it physically holds one, or waiting for a target that "
     "is physically full, is not counted as stuck (the request cannot be served)",
     "after any device reported itself broken the remaining clauses are not evaluated for that case",
-    "delivery is checked for under-delivery only; each balldevice_*_ball_missing or final ball_eject_failed event "
-    "excuses one request (MPF reported it)",
+    "requests are counted at the outermost public entry point (Playfield.add_ball, BallDevice.eject/request_ball/"
+    "setup_player_controlled_eject); MPF's own re-routing of unexpected balls and replacement requests after a lost "
+    "ball are not requests; delivery is checked for under-delivery only",
+    "each balldevice_*_ball_missing event, each final ball_eject_failed event, each eject still blocked by a full "
+    "target, each late fall back (ball returns to its source after the eject timeout: indistinguishable from a new "
+    "ball once MPF confirmed or gave up), each stray ball MPF takes for one that skipped a mechanical plunger and each "
+    "failed eject MPF confirmed because another ball reached the target meanwhile excuses one request",
+    "a physically failed eject counts as handled when the coil fires again, the player plunges again, MPF posts a "
+    "failed/missing/broken event, MPF treats a stray ball as having skipped a mechanical plunger, or another ball "
+    "reached the target and MPF confirmed with it",
+    "zero_time_livelock: 100000 loop iterations without the virtual clock advancing (deterministic, not wall clock)",
     "same physical envelope as C04 (no diverters, one ball per pulse, no jam switches, entrance devices without "
-    "undetectable faults)",
+    "undetectable faults, bounce on overflow)",
 ]
 HORIZONS = {"progress_horizon_virtual_s": 300, "settle_cap_virtual_s": 4000}
 TIERS = {"quick": {"cases": 640, "batch": 10, "case_timeout": 120},
-         "thorough": {"cases": 16000, "batch": 50, "case_timeout": 120}}
+         "thorough": {"cases": 12000, "batch": 50, "case_timeout": 120}}
 MIN_EVALS = {"quick": {"idle_or_broken": 1500, "delivery": 600, "retry_or_report": 100},
-             "thorough": {"idle_or_broken": 40000, "delivery": 15000, "retry_or_report": 2500}}
+             "thorough": {"idle_or_broken": 40000, "delivery": 20000, "retry_or_report": 2500}}
 SHRINK_KEYS = ["ops"]
 
 
